@@ -213,9 +213,91 @@ theorem select_eq (b : Bitmap) (h : b.Dir) (n : Nat) : select b n = (elems b)[n]
 theorem select_spec (b : Bitmap) (h : b.WF) (n : Nat) : select b n = Spec.select (elems b) n :=
   select_eq b h.dir n
 
+/-! ### `rank` -/
+
+theorem rank_cons_lt (c : Container) (cs : Bitmap) (v : Nat) (h1 : c.key < hi16 v) :
+    rank (c :: cs) v = c.len + rank cs v := by
+  unfold rank
+  rw [search_cons]
+  simp only [h1, if_true]
+  cases hs : search cs (hi16 v) with
+  | mk f loc => cases f <;> simp [len_cons] <;> omega
+
+theorem rank_cons_eq (c : Container) (cs : Bitmap) (v : Nat) (h2 : c.key = hi16 v) :
+    rank (c :: cs) v = c.rank (lo16 v) := by
+  unfold rank
+  rw [search_cons]
+  simp [h2, len_nil]
+
+theorem rank_cons_gt (c : Container) (cs : Bitmap) (v : Nat) (h3 : hi16 v < c.key) :
+    rank (c :: cs) v = 0 := by
+  unfold rank
+  rw [search_cons]
+  have h1 : ¬ c.key < hi16 v := by omega
+  have h2 : (c.key == hi16 v) = false := by simp; omega
+  simp [h1, h2, len_nil]
+
+/-- rank inside the container that owns the window of `v` -/
+theorem cRank_eq (c : Container) (hc : c.store.Inv) (v : Nat) (hk : c.key = hi16 v) :
+    c.rank (lo16 v) = (c.elems.filter (· ≤ v)).length := by
+  have hl : lo16 v < 65536 := by unfold lo16; omega
+  unfold Container.rank Container.elems
+  rw [Store.rank_spec _ hc _ hl, List.filter_map, List.length_map]
+  congr 1
+  apply List.filter_congr
+  intro x _
+  rw [Bool.eq_iff_iff]
+  simp only [Function.comp, decide_eq_true_eq]
+  unfold hi16 lo16 at *
+  omega
+
+theorem rank_eq (v : Nat) : ∀ (b : Bitmap), b.Dir → rank b v = ((elems b).filter (· ≤ v)).length := by
+  intro b
+  induction b with
+  | nil => intro _; simp [rank, search_nil, elems, len_nil]
+  | cons c cs ih =>
+    intro hdir
+    have hinv := hdir.inv (List.mem_cons_self ..)
+    have hb1 := cElems_bounds c hinv
+    have hb2 := elems_tail_bounds hdir
+    rw [elems_cons, List.filter_append, List.length_append]
+    by_cases h1 : c.key < hi16 v
+    · rw [rank_cons_lt c cs v h1, ih hdir.tail, cLen_eq' c hinv]
+      have : c.elems.filter (· ≤ v) = c.elems := by
+        rw [List.filter_eq_self]
+        intro y hy
+        have := hb1 y hy
+        simp only [decide_eq_true_eq]
+        unfold hi16 at h1; omega
+      rw [this]
+    · by_cases h2 : c.key = hi16 v
+      · rw [rank_cons_eq c cs v h2, cRank_eq c hinv v h2]
+        have : (elems cs).filter (· ≤ v) = [] := by
+          rw [List.filter_eq_nil_iff]
+          intro y hy
+          have := hb2 y hy
+          simp only [decide_eq_true_eq]
+          unfold hi16 at h2; omega
+        rw [this]; rfl
+      · rw [rank_cons_gt c cs v (by omega)]
+        have e1 : c.elems.filter (· ≤ v) = [] := by
+          rw [List.filter_eq_nil_iff]
+          intro y hy
+          have := hb1 y hy
+          simp only [decide_eq_true_eq]
+          unfold hi16 at h1 h2; omega
+        have e2 : (elems cs).filter (· ≤ v) = [] := by
+          rw [List.filter_eq_nil_iff]
+          intro y hy
+          have := hb2 y hy
+          simp only [decide_eq_true_eq]
+          unfold hi16 at h1 h2; omega
+        rw [e1, e2]; rfl
+
 theorem rank_spec (b : Bitmap) (h : b.WF) (v : Nat) (hv : v < 4294967296) :
     rank b v = Spec.rank (elems b) v := by
-  sorry
+  have _ := hv
+  exact rank_eq v b h.dir
 
 theorem rangeCardinality_spec (b : Bitmap) (h : b.WF) (lo hi : Bound)
     (hlo : Bound.le u32Max lo) (hhi : Bound.le u32Max hi) :
@@ -234,11 +316,21 @@ theorem isFull_spec (b : Bitmap) (h : b.WF) : isFull b = Spec.isFull u32Max (ele
 /-- corollaries stated in the property: rank/select are mutually inverse on members -/
 theorem rank_select (b : Bitmap) (h : b.WF) (n : Nat) (hn : n < (elems b).length) :
     ∃ v, select b n = some v ∧ rank b v = n + 1 := by
-  sorry
+  have hdir := h.dir
+  have hs := sorted_elems b hdir
+  have h1 : (elems b)[n]? = some (elems b)[n] := List.getElem?_eq_getElem hn
+  refine ⟨(elems b)[n], ?_, ?_⟩
+  · rw [select_eq b hdir]; exact h1
+  · rw [rank_eq _ b hdir, Arr.filter_le_length _ hs]
+    obtain ⟨hm, hidx⟩ := (Arr.getElem?_eq_some_iff_sorted _ hs n _).mp h1
+    rw [if_pos hm, ← hidx]
 
 theorem select_rank (b : Bitmap) (h : b.WF) (v : Nat) (hv : v ∈ elems b) :
     select b (rank b v - 1) = some v := by
-  sorry
+  have hdir := h.dir
+  have hs := sorted_elems b hdir
+  rw [rank_eq _ b hdir, select_eq b hdir, Arr.filter_le_length _ hs, if_pos hv, Nat.add_sub_cancel]
+  exact (Arr.getElem?_eq_some_iff_sorted _ hs _ _).mpr ⟨hv, rfl⟩
 
 end Bitmap
 end Roaring
